@@ -82,12 +82,23 @@ Plan capacity_generate(uint64_t base, const std::string &prop, uint64_t index, i
     p.seed = run_seed(base, "capacity", prop, index);
     Rng r(p.seed);
     Rng rd = r.fork("document"), ro = r.fork("operations");
-    if (ro.chance(1, 2)) {
+    if (ro.chance(1, 20)) {
+        // nesting beyond what binson_writer_verify's own parser can follow (depth 10), and up to the format's limits
+        static const int N[] = {9, 10, 11, 12, 13, 40, 120};
+        int depth = N[ro.below(7)]; bool arrays = ro.chance(1, 3);
+        for (int i = 0; i < depth; i++) { if (i && !arrays) p.ops.push_back(mk(W_NAME, 0, Bytes{'n'})); p.ops.push_back(mk(arrays ? W_ARR_BEGIN : W_OBJ_BEGIN)); }
+        if (arrays) p.ops.push_back(mk(W_INT, depth)); else { p.ops.push_back(mk(W_NAME, 0, Bytes{'v'})); p.ops.push_back(mk(W_INT, depth)); }
+        for (int i = 0; i < depth; i++) p.ops.push_back(mk(arrays ? W_ARR_END : W_OBJ_END));
+        p.ops.push_back(mk(W_VERIFY));
+        p.note = fmt("deep nesting: %d %s", depth, arrays ? "arrays" : "objects");
+        p.faults.push_back("shape:deep_write");
+    } else if (ro.chance(1, 2)) {
         GenKnobs k; k.max_nodes = 1 + (int)rd.below(14); k.alphabet = (int)rd.below(3); k.long_strings = rd.chance(1, 8) ? 1 + (int)rd.below(2) : 0;
         Node t = gen_tree(rd, k, rd.chance(1, 4));
         tree_to_ops(t, p.ops, ro, true);
         p.note = "well-formed: " + tree_text(t);
         if (p.ops.size() > 40) p.ops.resize(40);
+        if (ro.chance(1, 3)) p.ops.push_back(mk(W_VERIFY));
     } else {
         int n = 1 + (int)ro.below(40);
         for (int i = 0; i < n; i++) {
